@@ -14,11 +14,13 @@ import (
 func defaultHasher[T comparable]() func(T, uint64) uint64 {
 	var zero T
 
-	if reflect.TypeOf(&zero).Elem().Kind() == reflect.Interface {
+	if rt := reflect.TypeOf(&zero).Elem(); rt.Kind() == reflect.Interface {
+		// Hash the interface value itself with T's own (interface) type
+		// descriptor, exactly like a built-in map[T] does: nil keys and
+		// pointer-shaped dynamic values are handled by the runtime.
+		typ := uintptr((*iface)(unsafe.Pointer(&rt)).word)
 		return func(value T, seed uint64) uint64 {
-			iValue := any(value)
-			i := (*iface)(unsafe.Pointer(&iValue))
-			return runtime_typehash64(i.typ, i.word, seed)
+			return runtime_typehash64(typ, unsafe.Pointer(&value), seed)
 		}
 	} else {
 		var iZero any = zero
